@@ -176,7 +176,9 @@ class TcpConnection():
                 tcp_connection.debug(f"[Socket-{self.sock_id}] Just sent "\
                                      f"{sent} bytes in _send_buffer")
             
-            except BlockingIOError:
+            except OSError:
+                #: BlockingIOError, but also ECONNRESET / EPIPE when the peer 
+                #: has gone while there was something left to be written.
                 tcp_connection.exception(f"[Socket-{self.sock_id}] An error "\
                                          f"has occurred")
 
